@@ -1650,3 +1650,39 @@ func init() {
 		}),
 	)
 }
+
+func init() {
+	extend("C25", "R25h-R25i (added after seeded changes were missed): a block that does not extend the tip is declared a side-chain block only after the total-difficulty comparison has been evaluated (never by height alone); an orphan is taken out of the orphan pool on re-delivery only when its parent is known, so the pool's only copy is never dropped.",
+		rule("R25h", "side-chain verdict only after the total-difficulty comparison", 1, func(r *Run) {
+			fn := bcm + "connectBestChain"
+			core.Dominated{Fn: fn, Spec: spec(called("difficulty-compared", "math/big.(*Int).Cmp")), Sink: core.SinkPred{Label: "return 'not main chain, no error'", Match: func(fl *core.Flow, n *core.GNode) bool {
+				rs, ok := n.Ast.(*ast.ReturnStmt)
+				if !ok || len(rs.Results) != 3 || !isNilLit(fl.C, rs.Results[2]) {
+					return false
+				}
+				tv, ok := fl.C.Info.Types[rs.Results[1]]
+				return ok && tv.Value != nil && tv.Value.String() == "false"
+			}}, Need: []Fact{"difficulty-compared"}, Min: 1}.Check(r)
+		}),
+		rule("R25i", "a re-delivered orphan leaves the pool only when its parent is known", 1, func(r *Run) {
+			fn := bcm + "ProcessBlock"
+			core.Dominated{Fn: fn, Spec: &core.FlowSpec{Calls: []core.CallGuard{{Fact: "parent-known", Callee: core.Names(bcm + "blockExists"), Pass: core.OTrue, Idx: -1,
+				ArgOK: func(c *core.Ctx, call *ast.CallExpr) bool {
+					return len(call.Args) == 1 && core.DerivedFromCall("types.(*Block).GetParentHash")(c, call.Args[0])
+				}}}}, Sink: core.CallSink(bcp + "(*OrphanPool).RemoveOrphanBlockByHash"), Need: []Fact{"parent-known"}, Min: 1}.Check(r)
+		}),
+	)
+	extend("C31", "R31f (added after a seeded change was missed): the blacklist parser classifies an entry as a hex address with the same classifier the account keys are normalised with (address.IsEthAddress) — every spelling that addresses the account also matches its blacklist entry.",
+		rule("R31f", "blacklist entries are classified by the account-key classifier", 2, func(r *Run) {
+			fn := "types.parseBlockedAccount"
+			isEth := func(c *core.Ctx, e ast.Expr) core.Tri {
+				if core.CallAtom([]string{"common/address.IsEthAddress"}, core.IsObj("param:0"))(c, e) {
+					return core.True
+				}
+				return core.Unknown
+			}
+			core.UnreachableUnder{Fn: fn, Spec: &core.FlowSpec{Assume: isEth}, Sink: core.CallSink("common/address.NewBtcAddress"), Name: "the classifier says hex address", Min: 1}.Check(r)
+			core.HasAtom2(r, fn, "the hex-address classifier is consulted", core.CallAtom([]string{"common/address.IsEthAddress"}, core.IsObj("param:0")))
+		}),
+	)
+}
